@@ -11,7 +11,7 @@ import asyncio
 from contextvars import ContextVar
 from typing import Any
 
-from .util import canon, digest, mix
+from .util import Opaque, canon, digest, mix
 
 # Run label of the graph execution the current code belongs to: a tuple of
 # (graph name, digest of that run's input values, ordinal among equal digests).
@@ -251,6 +251,8 @@ class Runtime:
                 vals.append(args[p] + 1)
             elif beh == "pass" and j == 0:
                 vals.append(args[spec["beh_param"]])
+            elif beh == "opaque" and j == 0:
+                vals.append(Opaque(mix(tag, "opq", [(k, canon(v)) for k, v in items])))
             elif beh == "const":
                 cv = spec["beh_value"]
                 vals.append(list(cv) if isinstance(cv, list) else cv)
